@@ -136,9 +136,17 @@ func (t *Transport) DialPeer(ctx context.Context, peerID peer.ID, as string) (li
 
 	// abort if we already have a peer with the same addr connected
 	ok, err := CheckAlreadyConnected(t, as, peerID)
-	if ok || err != nil {
+	if err != nil {
 		// returns an error if already connected w/ different peer id
 		return nil, false, err
+	}
+	if ok {
+		// report the existing link: the caller records the link it was given
+		// and dials again when that link is lost.
+		if elnk, elnkOk := t.LookupLinkWithAddr(as); elnkOk && elnk.GetRemotePeer() == peerID {
+			return elnk, false, nil
+		}
+		// the link went away in the meantime: dial.
 	}
 
 	var dl *Dialer
